@@ -2081,6 +2081,25 @@ func (db *DB) CommitJournal(ctx context.Context, mode JournalMode) (err error) {
 		db.dirtyPageSet[1] = struct{}{}
 	}
 
+	// Pages the transaction added to the database without ever writing them
+	// (SQLite does not write free-list leaves that are allocated and freed
+	// again inside one transaction; it only extends the file with a page at
+	// its end) read as zeros. Treat them as written so that they get a
+	// checksum and reach the replicas like every other new page.
+	for pgno := prevPageN + 1; pgno <= commit; pgno++ {
+		if _, ok := db.dirtyPageSet[pgno]; ok || pgno == ltx.LockPgno(db.pageSize) {
+			continue
+		}
+		page := make([]byte, db.pageSize)
+		if _, err := internal.ReadFullAt(dbFile, page, int64(pgno-1)*int64(db.pageSize)); err != nil {
+			return fmt.Errorf("cannot read unwritten database page: pgno=%d err=%w", pgno, err)
+		}
+		db.chksums.mu.Lock()
+		db.setDatabasePageChecksum(pgno, ltx.ChecksumPage(pgno, page))
+		db.chksums.mu.Unlock()
+		db.dirtyPageSet[pgno] = struct{}{}
+	}
+
 	// Build sorted list of dirty page numbers.
 	pgnos := make([]uint32, 0, len(db.dirtyPageSet))
 	for pgno := range db.dirtyPageSet {
